@@ -415,6 +415,102 @@ type Reply struct {
 	Wait       <-chan struct{} // if non-nil the reply is delayed until the channel is closed
 	Hijack     func(s *Seen)   // if non-nil: called instead of writing anything (the script owns Conn); the connection is closed after it returns
 	OmitBody   bool            // write the headers (incl. Content-Length of Body) but no body (HEAD, 204, 304)
+	Delays     *Delays         // if non-nil the reply is written in pieces with pauses (WriteTimed)
+}
+
+// Delays scripts WHEN an upstream writes its reply, counted from the moment it has read the whole request.
+type Delays struct {
+	BeforeStatus time.Duration   // before the status line and the header
+	BeforeBody   time.Duration   // between the blank line after the header and the first body byte
+	Between      []time.Duration // Between[i]: between piece i and piece i+1 of the body (chunked: the chunks; otherwise the body is cut into len(Between)+1 pieces)
+}
+
+// Pieces renders the reply as head (status line, header, blank line), the pieces of the body and a tail (the last-chunk
+// marker and trailers of a chunked body); Bytes() is their concatenation.
+func (r Reply) Pieces(cuts int) (head []byte, pieces [][]byte, tail []byte) {
+	if r.Raw != nil {
+		return r.Raw, nil, nil
+	}
+	var b bytes.Buffer
+	text := http.StatusText(r.Status)
+	if text == "" {
+		text = "Status"
+	}
+	fmt.Fprintf(&b, "HTTP/1.1 %d %s\r\n", r.Status, text)
+	for _, h := range r.Header {
+		b.WriteString(h[0] + ": " + h[1] + "\r\n")
+	}
+	switch {
+	case r.Chunked:
+		b.WriteString("Transfer-Encoding: chunked\r\n\r\n")
+		if r.OmitBody {
+			return b.Bytes(), nil, nil
+		}
+		n := r.ChunkSize
+		if n <= 0 {
+			n = 4096
+		}
+		for off := 0; off < len(r.Body); off += n {
+			end := off + n
+			if end > len(r.Body) {
+				end = len(r.Body)
+			}
+			var p bytes.Buffer
+			fmt.Fprintf(&p, "%x\r\n", end-off)
+			p.Write(r.Body[off:end])
+			p.WriteString("\r\n")
+			pieces = append(pieces, p.Bytes())
+		}
+		var t bytes.Buffer
+		t.WriteString("0\r\n")
+		for _, tr := range r.Trailer {
+			t.WriteString(tr[0] + ": " + tr[1] + "\r\n")
+		}
+		t.WriteString("\r\n")
+		return b.Bytes(), pieces, t.Bytes()
+	case r.NoLength:
+		b.WriteString("\r\n")
+	default:
+		fmt.Fprintf(&b, "Content-Length: %d\r\n\r\n", len(r.Body))
+	}
+	if r.OmitBody || len(r.Body) == 0 {
+		return b.Bytes(), nil, nil
+	}
+	k := cuts + 1
+	if k > len(r.Body) {
+		k = len(r.Body)
+	}
+	for i := 0; i < k; i++ {
+		pieces = append(pieces, r.Body[i*len(r.Body)/k:(i+1)*len(r.Body)/k])
+	}
+	return b.Bytes(), pieces, nil
+}
+
+// WriteTimed writes the reply with the scripted pauses.
+func (r Reply) WriteTimed(c net.Conn) error {
+	d := r.Delays
+	head, pieces, tail := r.Pieces(len(d.Between))
+	time.Sleep(d.BeforeStatus)
+	if _, err := c.Write(head); err != nil {
+		return err
+	}
+	if len(pieces) > 0 || len(tail) > 0 {
+		time.Sleep(d.BeforeBody)
+	}
+	for i, p := range pieces {
+		if i > 0 && i-1 < len(d.Between) {
+			time.Sleep(d.Between[i-1])
+		}
+		if _, err := c.Write(p); err != nil {
+			return err
+		}
+	}
+	if len(tail) > 0 {
+		if _, err := c.Write(tail); err != nil {
+			return err
+		}
+	}
+	return nil
 }
 
 // Bytes renders the reply.
@@ -603,7 +699,13 @@ func (u *Upstream) serve(c net.Conn) {
 			rep.Hijack(s)
 			return
 		}
-		if _, err := c.Write(rep.Bytes()); err != nil {
+		var werr error
+		if rep.Delays != nil && rep.Raw == nil {
+			werr = rep.WriteTimed(c)
+		} else {
+			_, werr = c.Write(rep.Bytes())
+		}
+		if err := werr; err != nil {
 			if debugClose {
 				fmt.Fprintf(os.Stderr, "e2e: upstream %s closes %s: Write: %v\n", u.ln.Addr(), c.RemoteAddr(), err)
 			}
